@@ -4,8 +4,8 @@ from . import divlib as DL
 
 ID = "C03"
 META = {
-    "bounds": "all dividends/divisors |c| <= 2^127-1 (sign-split), divisor symbolic incl. zero; scale pairs: thorough all 361, quick boundary + seeded subset; "
-              "all 8 modes (quick: all for Decimal/Decimal, 3 per integer shape); integer operands over their whole type (i128: |i| <= 2^127-1); "
+    "bounds": "all dividends/divisors |c| <= 2^127-1 (sign-split), divisor symbolic incl. zero; scale pairs of the Decimal/Decimal operator: thorough all 361 under all 8 modes; quick all 361 under two modes (one of "
+              "Floor/Ceiling and one other, by seed) and the boundary + seeded subset under the other six; 3 modes per integer shape in the quick tier; integer operands over their whole type (i128: |i| <= 2^127-1); "
               "normalize loop unrolled 19 with unwinding assertion",
     "outside_claim": ["opt-level / LLVM", "a rounded quotient equal to i128::MIN may be returned or signalled (outside Decimal::MIN..=MAX)",
                       "i128 integer operands equal to i128::MIN"],
